@@ -38,6 +38,8 @@ CHECKS = {
          'All 256 codes x 12 abort sites x up to 5 positions, duplicate-free; every site must be reached or the run is inconclusive.', 'the 79-entry message table in c20.rs is typed from chapter 10 of the specification', '8 C20, D.5'),
  'C11': ('exploration', 'scripted terminal + reference codec as oracle over real files created by the harness; trace checker over the event log',
          'Held on the uploads explored (thousands of directories x block sizes x request scripts incl. invalid requests); sampled.', 'trusts the reference encodings of announcement / request / data block in seq.rs (WfCodec)', '8 C11, D.1'),
+ 'C12': ('exploration', 'program generation: random well-formed #[derive(Zvt)] struct definitions are compiled against /repo and run under the same reference-codec oracle and mutation engine as C01/C03/C13/C14 (the generator emits the Rust source and the layout description from one draw)',
+         'Held on the generated programs explored: hundreds of struct definitions per run over the whole attribute grammar (layouts the shipped packets never use), thousands of canonical values and mutants each. Sampled.', 'trusts the generator to stay inside the macro\'s documented grammar (a crate that does not compile is inconclusive) and the reference codec', '8 C12'),
  'C13': ('exploration', 'structure-aware mutation of reference chunk trees (all permutations <= 6 groups, duplicates, removals, foreign tags) with the reference decoder on the same bytes as oracle',
          'Held on the mutants explored; permutations exhaustive per node up to 6 present groups, sampled above.', 'trusts the reference decoder; claims weakened inside repeated / positional-optional scopes as stated in DESIGN', '8 C13'),
  'C14': ('exploration', 'suffix / sibling injection on reference chunk trees with the reference decoder on the same bytes as oracle',
